@@ -286,7 +286,72 @@ def make_case_factory(scn, scratch, counters=None):
                                     "detail": "fields %r: part %r composite %r after %r" % (
                                         diff[:4], {f: pmd.get(f) for f in diff[:4]}, {f: cmd.get(f) for f in diff[:4]}, done),
                                     "rel": "mount point" if k == "" else "below"})
-            return out[:3]
+            # exactly AT a mount point: the key is the mounted store's own root key
+            for j, lf in enumerate(leaves):
+                p = prefixes[j]
+                if owner(prefixes, p) != j:
+                    continue
+                if counters is not None:
+                    counters["at_mount_point_checks"] = counters.get("at_mount_point_checks", 0) + 1
+                try:
+                    rk = lf.to_root_key("")
+                    if rk != p:
+                        out.append({"read": "to_root_key", "key": p, "kind": "root_key_of_the_mounted_store_not_translated", "detail": "got %r" % (rk,), "rel": "mount point"})
+                except Exception as e:
+                    out.append({"read": "to_root_key", "key": p, "kind": "raises:" + type(e).__name__, "detail": "", "rel": "mount point"})
+                try:
+                    mps.store(p, b"at-mount-point", {"x_user": "mp"})
+                    stored = True
+                except Exception:
+                    stored = False       # a directory store cannot hold data under its root: refused, fine
+                if stored:
+                    def rd(s_, k_):
+                        try:
+                            return s_.get_bytes(k_)
+                        except Exception:
+                            return None
+                    if rd(lf, "") != b"at-mount-point" or rd(mps, p) != b"at-mount-point":
+                        out.append({"read": "get_bytes", "key": p, "kind": "data_stored_at_the_mount_point_not_served_by_the_mounted_store",
+                                    "detail": "part %r composite %r" % (rd(lf, ""), rd(mps, p)), "rel": "mount point"})
+                    try:
+                        mps.remove(p)
+                    except Exception as e:
+                        out.append({"read": "op:remove", "key": p, "kind": "raises:" + type(e).__name__, "detail": "", "rel": "mount point"})
+                    if rd(mps, p) is not None or rd(lf, "") is not None:
+                        out.append({"read": "get_bytes", "key": p, "kind": "entry_removed_at_the_mount_point_still_served",
+                                    "detail": "part %r composite %r" % (rd(lf, ""), rd(mps, p)), "rel": "mount point"})
+            # a proper ancestor of a mount point belongs to the default store: removing the (empty) directory there is the
+            # default store's business - the composite keeps reporting it, because a mount point lies below it
+            if dleaf is not None:
+                for p in prefixes:
+                    if "/" not in p:
+                        continue
+                    anc = p.split("/")[0]
+                    if anc in prefixes or owner(prefixes, anc) is not None:
+                        continue
+                    try:
+                        if not dleaf.is_dir(anc):
+                            dleaf.makedir(anc)
+                        if dleaf.listdir(anc):
+                            continue
+                    except Exception:
+                        continue
+                    if counters is not None:
+                        counters["mount_ancestor_removals"] = counters.get("mount_ancestor_removals", 0) + 1
+                    try:
+                        mps.removedir(anc)
+                    except Exception as e:
+                        out.append({"read": "op:removedir", "key": anc, "kind": "raises_for_a_default_store_directory:" + type(e).__name__,
+                                    "detail": repr(e)[:120], "rel": "mount ancestor"})
+                        continue
+                    try:
+                        if dleaf.is_dir(anc):
+                            out.append({"read": "default_store_raw", "key": anc, "kind": "directory_not_removed_from_the_default_store", "detail": "", "rel": "mount ancestor"})
+                        if not mps.is_dir(anc) or not mps.contains(anc):
+                            out.append({"read": "is_dir", "key": anc, "kind": "mount_ancestor_no_longer_reported", "detail": "", "rel": "mount ancestor"})
+                    except Exception:
+                        pass
+            return out[:4]
 
         extra.wild = wild
         return built, view, extra
